@@ -735,6 +735,7 @@ func (h *c19H) newDir(kind string) string {
 }
 
 func (h *c19H) violate(class string, spec c19Spec, msg string) {
+	h.res.Count("violations_"+class, 1)
 	h.res.Violate(class+":"+c19KeyText(spec), fmt.Sprintf("%s: %s", spec.Text(), msg), map[string]any{"struct": spec.Text(), "class": class})
 }
 
